@@ -177,7 +177,8 @@ class Module:
         stack = [self.tree]
         while stack:
             p = stack.pop()
-            p._ord = order
+            if not isinstance(p, (ast.expr_context, ast.operator, ast.boolop, ast.unaryop, ast.cmpop)):     # shared singletons
+                p._ord = order
             order += 1
             kids = list(ast.iter_child_nodes(p))
             for c in kids:
